@@ -836,6 +836,33 @@ func wTemplate(conf wconf, kind, cut, mid int, ek string) wcase {
 		ru.serve()
 		ru.flushIfQueued(step)
 		ru.serve()
+	case 6:
+		// cancellation INSIDE THE RESULT FAN-OUT window of a batch: all three callers are in one flush (direct writer: 2, 3
+		// wait for the semaphore); frame 1 is written whole and its Write ends ok - the coalescer's caller 1 now has its whole
+		// frame on the wire but not yet its result (flush hands the results out after the last buffer); contexts are cancelled
+		// (mid 0: all, 1: only caller 1, 2: only caller 3, still behind); frame 2 is held after `cut` bytes and ends with `ek`.
+		// Caller 1 must be told (len, nil), never (0, ctx error).
+		step("s1")
+		step("s2")
+		step("s3")
+		ru.flushIfQueued(step)
+		step(fmt.Sprintf("p1:%d", conf.lens[0]))
+		step("e1:ok")
+		for _, c := range [][]int{{1, 2, 3}, {1}, {3}}[mid] {
+			step(fmt.Sprintf("c%d", c))
+		}
+		if w := ru.heldOf(2); w != nil {
+			c2 := imin(cut, conf.lens[1]-1)
+			if ek == "ok" {
+				c2 = conf.lens[1]
+			}
+			if c2 > 0 {
+				step(fmt.Sprintf("p2:%d", c2))
+			}
+			step("e2:" + ek)
+		}
+		ru.flushIfQueued(step)
+		ru.serve()
 	case 4:
 		// caller 1's Write is inside the transport after `cut` bytes; callers 2.. arrive: `mid` of them with their context
 		// already ended (only ctx.Done is ready: they leave at once), the others normally; then EVERY context is cancelled -
